@@ -99,6 +99,19 @@ func (j *jb) treeOrBig(v interface{}) {
 
 var treeReader rjson.ValueReader // reused across the whole run
 
+func init() { warmUp(&treeReader) }
+
+// warmUp gives a reader a fixed history (escaped keys and strings, nested containers, failed reads),
+// so that what the "reused reader" observations depend on is recreated by replay.
+func warmUp(r *rjson.ValueReader) {
+	for _, d := range []string{`{"k\n1":"v\t1","a":[1,"\u00e9x",{"b\\":[true,null,"long string with an escape \n inside it"]}],"c":{"d":{}}}`,
+		`[[1,2,3],[],{"x":[]},"s\u0041"]`, `{"a":[1,`, `[1,{"b":}]`, `"top\nlevel"`, `{"m":{"n":{"o":[{"p":"q\r"}]}}}`} {
+		r.ReadValue([]byte(d))
+	}
+	r.ReadObject([]byte(`{"z\u0031":[{"y":"\n"}]}`))
+	r.ReadArray([]byte(`[{"w":"\t"},["v\\"]]`))
+}
+
 func runTree(sw *shardWriter, j *jb, data []byte, segs []seg, st *genStats) {
 	runTreeWith(&treeReader, sw, j, data, segs, st)
 }
@@ -323,6 +336,10 @@ func genTrees(c *genCtx) error {
 				}
 			}
 			forSweepInputs(ss, mem, base, o, rng, func(in []byte, viable bool) {
+				if !w.rdWarm {
+					warmUp(&w.rd)
+					w.rdWarm = true
+				}
 				runTreeWith(&w.rd, c.sw, &w.j, in, nil, st)
 			})
 		})
